@@ -3,7 +3,9 @@
 cd "$(dirname "$0")/.."
 for name in "$@"; do
   P=${name%%-*}
-  cp seeded/$name/patch.diff /tmp/_rs_patch.diff; cp seeded/$name/demo.py /tmp/_rs_demo.py
+  t=$(mktemp -d /tmp/reseed_XXXXXX)
+  cp seeded/$name/patch.diff $t/patch.diff; cp seeded/$name/demo.py $t/demo.py
   echo "=== $name"
-  tools/try_seed.py $P $name /tmp/_rs_patch.diff /tmp/_rs_demo.py --skip-confirm 2>&1 | tail -2
+  tools/try_seed.py $P $name $t/patch.diff $t/demo.py --skip-confirm 2>&1 | tail -2
+  rm -rf $t
 done
